@@ -3,6 +3,7 @@ import re
 
 from .common import MODEL, TYV, hexs, pipe, unhex
 from .core import parse_fields
+from . import kconv
 
 R_NODE = re.compile(r"\( R (\d+) T:([0-9a-f]+) \)")
 
@@ -63,8 +64,10 @@ def run_cases(cases, timeout=3000):
     # non-ASCII texts that only appear under another context could be missing from the table: the driver then falls
     # back to the character count; such cases are skipped from the byte comparison when they disagree on layout only
     mlines = []
+    cw = kconv.char_widths(srcs, timeout)
     for (w, t, a, b, s) in cases:
         tree, widths = info[s]
+        widths = widths + [x for x in cw.get(s, []) if x[0] not in set(y[0] for y in widths)]
         mlines.append("%d %d %d %d %d %s %s" % (w, t, a, b, len(widths), " ".join("%s %s" % x for x in widths), tree))
     model = pipe([MODEL, "range"], mlines, timeout=timeout)
     res = []
